@@ -318,6 +318,30 @@ def grid_hyphen(L='lower', U='upper'):
     return out
 
 
+def _cover(name, params, lines):
+    """vacuity guard for a clause grid: under the grid's precondition the clause guards are exhaustive (a mistyped guard
+    that can never hold would leave a shape without a clause); the must-fail twin is in canaries.rs"""
+    req = [l for l in lines if l.lstrip().startswith('requires')][0]
+    guards = []
+    for l in lines:
+        m = re_clause.match(l)
+        if m and '#npm-or-pinned' not in l and '#small' not in l:
+            guards.append('(' + m.group(1) + ')')
+    return 'pub proof fn cover_%s(%s)\n%s\n    ensures\n        %s\n{ }\n' % (name, params, req, '\n        || '.join(guards))
+
+
+import re as _re0
+re_clause = _re0.compile(r'^\s+(.*?) ==> .*//\s*@\S+')
+
+
+def cover_lemmas():
+    out = [_cover('plain', 'p: Partial', grid_partial('p')), _cover('caret', 'p: Partial', grid_caret('p')),
+           _cover('tilde', 'p: (Option<&str>, Partial)', grid_tilde('p')), _cover('hyphen', 'lo: Option<Partial>, up: Partial', grid_hyphen('lo', 'up'))]
+    for op in OPS:
+        out.append(_cover('primitive_' + op, 'p: (Operation, Partial)', grid_primitive(op, 'p')))
+    return '\n'.join(out)
+
+
 DESUGAR_HINT_HEAD = """{
  broadcast use group_k_order, group_sets;
  proof { reveal(cut_cmp);
